@@ -276,12 +276,103 @@ func (g agg) String() string {
 	return b.String()
 }
 
-// classify names the structural predicate of a conservation failure: every
-// expected identity that is missing from the result, or has the wrong sum
-// there, is compared with the nearest other identity of the result that is not
-// an exact match itself; the attributes in which the two differ are what the
-// merge lost or altered.
+// projectKinds are the attributes of the identity that can be erased one at
+// a time, most specific first.
+var projectKinds = []string{
+	"line.column-nonlast", "line.column-last", "line.line-nonlast", "line.line-last",
+	"func.startline", "func.sysname", "func.file", "func.name",
+	"loc.folded", "loc.address", "loc.binary", "loc.nesting", "label", "numlabel",
+}
+
+// project returns a copy of id with one attribute erased.
+func (id *ident) project(kind string) *ident {
+	o := &ident{labels: id.labels, nums: id.nums}
+	switch kind {
+	case "label":
+		o.labels = ""
+	case "numlabel":
+		o.nums = ""
+	}
+	for _, l := range id.locs {
+		l.lines = append([]ap.Line(nil), l.lines...)
+		switch kind {
+		case "loc.folded":
+			l.folded = false
+		case "loc.address":
+			l.rel = 0
+		case "loc.binary":
+			l.bin = ""
+		}
+		for j := range l.lines {
+			ln := &l.lines[j]
+			switch kind {
+			case "func.name":
+				ln.Func = ""
+			case "func.sysname":
+				ln.Sys = ""
+			case "func.file":
+				ln.File = ""
+			case "func.startline":
+				ln.Start = 0
+			case "line.line-last", "line.line-nonlast":
+				if kind == "line.line-"+lastness(j) {
+					ln.Line = 0
+				}
+			case "line.column-last", "line.column-nonlast":
+				if kind == "line.column-"+lastness(j) {
+					ln.Col = 0
+				}
+			}
+		}
+		if kind == "loc.nesting" && len(l.lines) > 1 {
+			for _, ln := range l.lines {
+				o.locs = append(o.locs, identLoc{bin: l.bin, rel: l.rel, folded: l.folded, lines: []ap.Line{ln}})
+			}
+			continue
+		}
+		o.locs = append(o.locs, l)
+	}
+	return o
+}
+
+// project re-aggregates g with one attribute erased from every identity.
+func (g agg) project(kind string) agg {
+	o := agg{}
+	for _, e := range g {
+		id := e.id.project(kind)
+		k := id.String()
+		cur := o[k]
+		if cur == nil {
+			cur = &entry{id: id, vals: make([]int64, len(e.vals))}
+			o[k] = cur
+		}
+		for j, v := range e.vals {
+			cur.vals[j] += v
+		}
+	}
+	o.dropZero()
+	return o
+}
+
+// classify names the structural predicate of a conservation failure. If the
+// result equals the reference once a single attribute is erased from every
+// identity on both sides, the merge is coarser than allowed (or alters stacks)
+// in exactly that attribute and the attribute is the predicate. Otherwise
+// nearestDiff describes the witness.
 func classify(want, got, inputs agg) string {
+	for _, k := range projectKinds {
+		if want.project(k).equal(got.project(k)) {
+			return k
+		}
+	}
+	return nearestDiff(want, got, inputs)
+}
+
+// nearestDiff: every expected identity that is missing from the result is
+// compared with the nearest identity of the result that is not an exact match
+// itself; the attributes in which the two differ are what the merge lost or
+// altered.
+func nearestDiff(want, got, inputs agg) string {
 	var cands []*entry
 	var gk []string
 	for k := range got {
